@@ -146,7 +146,7 @@ func init() {
 		name, n := argStr(c.args[0]), argInt(c.args[1])
 		arr := in.newArray(types.Typ[types.Uint8], n)
 		for i := 0; i < n; i++ {
-			arr.sub[i].v = in.newVar(name, BV(8), "u8")
+			in.elem(arr, i).v = in.newVar(name, BV(8), "u8")
 		}
 		return SliceV{arr: arr, len: n, cap: n}
 	}
@@ -396,7 +396,7 @@ func (in *Interp) assumeStub(cnd *Term, what string) {
 func (in *Interp) sliceBytes(s SliceV) []*Term {
 	r := make([]*Term, s.len)
 	for i := 0; i < s.len; i++ {
-		r[i] = in.load(s.arr.sub[s.off+i]).(*Term)
+		r[i] = in.load(in.elem(s.arr, s.off+i)).(*Term)
 	}
 	return r
 }
@@ -404,7 +404,7 @@ func (in *Interp) sliceBytes(s SliceV) []*Term {
 func (in *Interp) bytesToSlice(b []*Term) SliceV {
 	arr := in.newArray(types.Typ[types.Uint8], len(b))
 	for i, t := range b {
-		arr.sub[i].v = t
+		in.elem(arr, i).v = t
 	}
 	return SliceV{arr: arr, len: len(b), cap: len(b)}
 }
@@ -607,7 +607,7 @@ func (in *Interp) deepEq(a, b Value, t types.Type, seen map[[2]*Cell]bool, depth
 			if et == nil {
 				et = x.arr.typ
 			}
-			r = tt.And(r, in.deepEq(in.loadQuiet(x.arr.sub[x.off+i]), in.loadQuiet(y.arr.sub[y.off+i]), et, seen, depth+1))
+			r = tt.And(r, in.deepEq(in.loadQuiet(in.elem(x.arr, x.off+i)), in.loadQuiet(in.elem(y.arr, y.off+i)), et, seen, depth+1))
 			if r == tt.False {
 				return r
 			}
@@ -764,7 +764,9 @@ func (in *Interp) copyCell(c *Cell, cells map[*Cell]*Cell, maps map[*MapObj]*Map
 	} else {
 		n.sub = make([]*Cell, len(c.sub))
 		for i, s := range c.sub {
-			n.sub[i] = in.copyCell(s, cells, maps)
+			if s != nil {
+				n.sub[i] = in.copyCell(s, cells, maps)
+			}
 		}
 	}
 	return n
